@@ -1,6 +1,7 @@
 package minersc
 
 import (
+	"0chain.net/core/sortedmap"
 	"encoding/hex"
 	"errors"
 	"fmt"
@@ -393,7 +394,8 @@ func (gn *GlobalNode) set(key string, change string) error {
 }
 
 func (gn *GlobalNode) update(changes config.StringMap) error {
-	for key, value := range changes.Fields {
+	for _, key := range sortedmap.NewFromMap(changes.Fields).GetKeys() {
+		value := changes.Fields[key]
 		if err := gn.set(key, value); err != nil {
 			return err
 		}
